@@ -3,16 +3,17 @@ import RJson.Gen.Facts
 # The constants the hand models copy from the hand-written Go are the constants of the current source
 
 `gofacts` lists, for every function of the hand-written Go (internal/fp, simple_readers.go, token.go,
-machine_helpers.go, complex_readers.go, decode.go, rjson.go), its integer / float / character literals (sorted, so that
-reordering statements does not matter; strings such as error texts are left out). The hand models in `Model/*.lean`
+machine_helpers.go, complex_readers.go, decode.go, rjson.go), its integer / float / character literals and, behind `;;`, its operators and jump statements (`<`, `>=`, `+=`,
+`break`, `return`, …; unary ones prefixed with `u`) — each list sorted, so that reordering statements does not matter; strings
+such as error texts are left out. The hand models in `Model/*.lean`
 were written against exactly these constants — `310` / `330` in `floatBits`, `22` and `15` in `atof64exact`, `0x1f` in
-the string readers, the digit bounds of the integer readers, ... A changed, added or removed literal fails the
+the string readers, the digit bounds of the integer readers, ... A changed, added or removed literal or operator (a `<` that became `<=`, a dropped `break`) fails the
 comparison below on the next run, before any input is tried; named constants and tables are regenerated separately
 (`Gen/Tables.lean`).
 -/
 namespace RJson.Literals
 
 theorem literalsDecode_expected : Gen.Facts.literalsDecode =
-    [("DecodeBool", ""), ("DecodeFloat64", ""), ("DecodeInt", ""), ("DecodeInt32", ""), ("DecodeInt64", ""), ("DecodeString", ""), ("DecodeUint", ""), ("DecodeUint32", ""), ("DecodeUint64", ""), ("decodeBoolCompat", ""), ("decodeCompatHelper", "0"), ("decodeFloat64Compat", ""), ("decodeInt32Compat", ""), ("decodeInt64Compat", ""), ("decodeIntCompat", ""), ("decodeStringCompat", ""), ("decodeUint32Compat", ""), ("decodeUint64Compat", ""), ("decodeUintCompat", ""), ("nullOrBust", "0")] := by decide +kernel
+    [("DecodeBool", " ;; != return return"), ("DecodeFloat64", " ;; != return return"), ("DecodeInt", " ;; != return return"), ("DecodeInt32", " ;; != return return"), ("DecodeInt64", " ;; != return return"), ("DecodeString", " ;; != return return"), ("DecodeUint", " ;; != return return"), ("DecodeUint32", " ;; != return return"), ("DecodeUint64", " ;; != return return"), ("decodeBoolCompat", " ;; return"), ("decodeCompatHelper", "0 ;; != return return"), ("decodeFloat64Compat", " ;; return"), ("decodeInt32Compat", " ;; return"), ("decodeInt64Compat", " ;; return"), ("decodeIntCompat", " ;; return"), ("decodeStringCompat", " ;; return"), ("decodeUint32Compat", " ;; return"), ("decodeUint64Compat", " ;; return"), ("decodeUintCompat", " ;; return"), ("nullOrBust", "0 ;; != return return")] := by decide +kernel
 
 end RJson.Literals
